@@ -43,7 +43,10 @@ ASSUMPTIONS = ['gas phase ideal and Poynting factor 1 (the default Phi/PCF of th
                'tags of known findings, not exclusions)']
 REQUIRED_CELLS = {'quick': ['boundary:liq', 'boundary:two', 'boundary:vap', 'vspec:PV', 'vspec:TV',
                             'spec:PH', 'spec:PS', 'spec:TH', 'spec:TS', 'spec:TP', 'spec:TV', 'spec:PV',
-                            'spec:Tx', 'spec:Ty', 'spec:Px', 'spec:Py', 'spec:n=1', 'ideal:two', 'scale:two-phase'],
+                            'spec:Tx', 'spec:Ty', 'spec:Px', 'spec:Py', 'spec:n=1', 'ideal:two', 'scale:two-phase']
+                           + [f'single:{p}:{q}' for p, q in [('TP', 'liq'), ('TP', 'vap'), ('TV', 'two'), ('PV', 'two'), ('TH', 'two'),
+                                                              ('TS', 'two'), ('PH', 'two'), ('PH', 'liq'), ('PH', 'vap'), ('PS', 'two'),
+                                                              ('PS', 'liq'), ('PS', 'vap')]],
                   'thorough': []}
 
 T_MIN, T_MAX = 280.0, 450.0
@@ -110,10 +113,11 @@ def reference(pid, names, ideal=False):
 # ---------------------------------------------------------------------------
 # generators
 # ---------------------------------------------------------------------------
-def draw_volatile(ch, pid, nmin=1, nmax=5, zmin=0.0, exclude=()):
+def draw_volatile(ch, pid, nmin=1, nmax=5, zmin=0.0, exclude=(), n_choices=None):
     vol = [v for v in PKG[pid][0] if v not in exclude]
     order = {n: i for i, n in enumerate(vol)}
-    n = ch.int('n', nmin, min(nmax, len(vol)))
+    # the single-chemical branches of the code are separate functions per specification pair: n = 1 gets double weight
+    n = ch.choice('n', n_choices) if n_choices else ch.int('n', nmin, min(nmax, len(vol)))
     names = ch.subset('chems', vol, min_size=n, max_size=n)
     names = sorted(names, key=order.get)           # package order = order of the equilibrium arrays
     if zmin:
@@ -333,7 +337,7 @@ def draw_in(ch, label, lo, hi, log=False):
     return float(lo + u * (hi - lo))
 
 
-def draw_spec_values(ch, ctx, pid, th, names, z, F, inerts, pair, approx):
+def draw_spec_values(ch, ctx, pid, th, names, z, F, inerts, pair, approx, force=None):
     """Specification values inside the quantified box, constructed from the approximate (Raoult) envelope."""
     mol = z * F
     kw = {}
@@ -366,7 +370,7 @@ def draw_spec_values(ch, ctx, pid, th, names, z, F, inerts, pair, approx):
         kw[pair[1]] = [float(comp[0]), float(comp[1])]
         return kw, mol, stratum
     if pair == 'TP':
-        stratum = ch.choice('stratum', ['two', 'two', 'liq', 'vap', 'free'])
+        stratum = force or ch.choice('stratum', ['two', 'two', 'liq', 'vap', 'free'])
         try: Ta, Tb = approx.T_window(z, P_MIN, P_MAX, T_MIN, T_MAX)
         except ValueError: ctx.reject('reference envelope bracket')
         if stratum == 'free' or Ta is None or Tb is None or not Ta < Tb:
@@ -412,7 +416,7 @@ def draw_spec_values(ch, ctx, pid, th, names, z, F, inerts, pair, approx):
         else:
             try: Tb, Td = approx_envelope_T(approx, z, P)
             except ValueError: ctx.reject('reference envelope bracket')
-            stratum = ch.choice('stratum', ['two', 'two', 'two', 'liq', 'vap'])
+            stratum = force or ch.choice('stratum', ['two', 'two', 'liq', 'vap'])
             if stratum == 'two':
                 Hl, Sl = hypothetical_HS(th, names, mol, inerts, 'l', Tb, P)
                 Hg, Sg = hypothetical_HS(th, names, mol, inerts, 'g', Td, P)
@@ -448,15 +452,40 @@ def prop_spec(ch, ctx):
     if pair[1] in 'xy':
         names, z, F = draw_volatile(ch, pid, 2, 2)
     else:
-        names, z, F = draw_volatile(ch, pid, 1, 5, exclude=excl)
+        names, z, F = draw_volatile(ch, pid, 1, 5, exclude=excl, n_choices=[1, 2, 3, 1, 4, 5])
     inerts = draw_inerts(ch, pid) if pair[1] not in 'xy' else {}
+    spec_case(ch, ctx, pid, ideal, pair, names, z, F, inerts, None, 'spec')
+
+
+SINGLE_COMBOS = [['TP', 'liq'], ['TP', 'vap'], ['TP', 'free'], ['TV', 'two'], ['PV', 'two'], ['TH', 'two'], ['TS', 'two'],
+                 ['PH', 'two'], ['PH', 'liq'], ['PH', 'vap'], ['PS', 'two'], ['PS', 'liq'], ['PS', 'vap']]
+
+
+def prop_single(ch, ctx):
+    """Exactly one chemical takes part in the equilibrium: every specification pair has its own single-chemical routine
+    (_set_*_chemical) with sub-cooled / saturated / super-heated branches.  One draw picks the (pair, branch) combination so
+    that every routine and branch is reached in every run; the only optional company is a non-counted solute."""
+    pid = ch.choice('pkg', ['A', 'B', 'alc', 'hc'])
+    ideal = ch.int('ideal', 0, 3) == 0
+    pair, stratum = ch.choice('combo', SINGLE_COMBOS)
+    vol = [v for v in PKG[pid][0] if not ('S' in pair and v in S_EXCLUDE)]
+    names = [ch.choice('chem', vol)]
+    F = ch.logfloat('F', -2, 3)
+    inerts = {}
+    if pid == 'A' and ch.bool('solute'):
+        inerts['Glucose'] = ch.logfloat('inert.Glucose.ratio', -4, -1.3)      # N_solutes unset: does not count
+    ctx.cell(f'single:{pair}:{stratum}')
+    spec_case(ch, ctx, pid, ideal, pair, names, np.array([1.0]), F, inerts, stratum, 'single')
+
+
+def spec_case(ch, ctx, pid, ideal, pair, names, z, F, inerts, force, label):
     start = draw_start(ch, names)
     th = package(pid, ideal)
     tmo.settings.set_thermo(th)
     n = len(names)
     # envelope used only to place the inputs: Raoult, except for x/y pairs where lever-rule feasibility needs the model
     approx = reference(pid, names, ideal=(True if pair[1] not in 'xy' else ideal))
-    kw, mol, stratum = draw_spec_values(ch, ctx, pid, th, names, z, F, inerts, pair, approx)
+    kw, mol, stratum = draw_spec_values(ch, ctx, pid, th, names, z, F, inerts, pair, approx, force=force)
     s = build(th, names, mol, inerts, start)
     set_default(ch, ctx, pid, ideal)
     itag = ('g' if any(th.chemicals[k].locked_state == 'g' for k in inerts) else '') + \
@@ -503,7 +532,7 @@ def prop_spec(ch, ctx):
         ctx.metric_max(f'Vspec.{pair}:broad', abs(V - kw['V']))
     both = snap['g'].sum() > 0 and snap['l'].sum() > 0
     if both:
-        ctx.nontriv(['spec', pid, ideal, names, pair, stratum, start['kind'], sorted(inerts)])
+        ctx.nontriv([label, pid, ideal, names, pair, stratum, start['kind'], sorted(inerts)])
 
 
 def tol_HS(F_mass, C, val, s, what):
@@ -796,7 +825,7 @@ def prop_scaling(ch, ctx):
     if pair[1] in 'xy':
         names, z, F = draw_volatile(ch, pid, 2, 2)
     else:
-        names, z, F = draw_volatile(ch, pid, 1, 5, exclude=excl)
+        names, z, F = draw_volatile(ch, pid, 1, 5, exclude=excl, n_choices=[1, 2, 3, 1, 4, 5])
     inerts = draw_inerts(ch, pid) if pair[1] not in 'xy' else {}
     start = draw_start(ch, names)
     k = ch.logfloat('k', -9, 6)        # the scaling clause does not bound k
@@ -840,6 +869,7 @@ def prop_scaling(ch, ctx):
 
 PROPS = {
     'spec': (prop_spec, 700, 26000),
+    'single': (prop_single, 160, 5000),
     'vspec': (prop_vspec, 250, 8000),
     'boundary': (prop_boundary, 300, 12000),
     'ideal': (prop_ideal, 250, 8000),
